@@ -75,8 +75,22 @@ def materialise(ctx, case, tag):
     return args, d
 
 
+# The recursion limits of the source (MAX_DEPTH 4096 in op.h, 256 nested parentheses, 4096 tokens) are
+# chosen for the release build on the default 8 MiB stack: measured with `ulimit -s`, the deepest
+# accepted recursion (4096 levels of a self-referring `define`) needs 2.9 MiB, a 2048-term operator
+# chain 1.7 MiB - a margin of 2.8 on 8 MiB.  The ASan+UBSan build (-O1, redzones around every local)
+# has frames several times larger, so it is run with a stack enlarged by the same factor; otherwise a
+# probe at the limit would report the sanitizer build's stack, not the program's behaviour.
+ASAN_STACK_FACTOR = 8
+DEFAULT_STACK_KB = 8192
+
+
 def run_one(binary, args, stdin, env, cwd=None, factor=1):
     cmd = [binary, '--init-file', '/dev/null'] + args
+    if env is not None and env.get('C11_STACK_KB'):
+        cmd = ['/bin/sh', '-c', 'ulimit -s %s; exec "$0" "$@"' % env['C11_STACK_KB']] + cmd
+    if env is not None and env.get('C11_VALGRIND'):
+        cmd = [env['C11_VALGRIND'], '-q', '--error-exitcode=99'] + cmd
     try:
         p = subprocess.run(cmd, input=stdin if stdin is not None else b'', env=env, timeout=TIMEOUT * factor, cwd=cwd,
                            stdout=subprocess.PIPE, stderr=subprocess.PIPE)
@@ -781,6 +795,8 @@ FMT_MALFORMED = ['%', '%-', '%--', '%.', '%..', '%20', '%-20', '%20.', '%20.5', 
                  '%-1000.1000(account)', '%20P', '%20.20T', '%1000t', '%(1/0)', '%(to_int(1)/to_int(0))', '%(account', "%('", '%(")', '%(/', '%(]',
                  '%(account)' * 50, '%(' + '(' * 300 + '1' + ')' * 300 + ')', '%(' + '+'.join(['1'] * 3000) + ')', '%' + '-' * 5000, '%' + '%' * 4999,
                  '%(a' + 'x' * 5000 + ')', 'a' * 70000, '\\' * 3001, '%(account)\\', '%(account)%', 'x%', '\xff\xfe%(account)\xff']
+FMT_TRAILING_BACKSLASH = ['%(account) and some literal text\\', 'text only, longer than a short string buffer\\', '%(account)\\n%/%(payee)\\',
+                          '%20(account)|\\\\\\', '\\n\\']
 # widths so large that the padding is gigabytes: one probe only (it is a known finding while unrepaired)
 FMT_HUGE_WIDTH = ['%.99999999999(account)\n']
 
@@ -818,12 +834,20 @@ def formats(ctx, res, binary=None, env=None, sanitizer=False):
         cases.append(Case('format-field-ref', FMT_JOURNAL, [verb, opt, fmt] + NOW, info=dict(kinds=kinds_eff, index=index, d=d, fmt=fmt)))
         lines.append(lib.sx(['fieldref', 'f%d' % i, kinds_eff, index]))
     mal = []
-    for j, t in enumerate(FMT_MALFORMED):
+
+    def construct_of(t):
+        # a format that ends in a lone backslash has its own construct (F67 until repaired)
+        trailing = len(t) - len(t.rstrip('\\'))
+        return 'format-trailing-backslash' if trailing % 2 == 1 else 'format-directive'
+    bs = GUARDS.get('format_backslash_guard')
+    for j, t in enumerate(FMT_MALFORMED + FMT_TRAILING_BACKSLASH):
+        con = construct_of(t)
+        info = dict(t=t[:40], expect='error' if (con == 'format-trailing-backslash' and bs) else None)
         for verb, opt in (FMT_COMMANDS if len(t) < 200 else FMT_COMMANDS[:5]):
-            mal.append(Case('format-directive', FMT_JOURNAL, [verb, opt, t] + NOW, info=dict(t=t[:40])))
+            mal.append(Case(con, FMT_JOURNAL, [verb, opt, t] + NOW, info=dict(info) if (verb, opt) in FMT_PARSING else dict(t=t[:40])))
         for verb, opts in FMT_OTHER_OPTIONS:
-            mal.append(Case('format-directive', FMT_JOURNAL, [verb] + opts + [t] + NOW, info=dict(t=t[:40])))
-        mal.append(Case('format-directive', FMT_JOURNAL, ['reg', '--format', '%(account)\\n%/' + t] + NOW, info=dict(t=t[:40])))
+            mal.append(Case(con, FMT_JOURNAL, [verb] + opts + [t] + NOW, info=dict(t=t[:40])))
+        mal.append(Case(con, FMT_JOURNAL, ['reg', '--format', '%(account)\\n%/' + t] + NOW, info=dict(info)))
     wl = GUARDS.get('format_width_limit')
     huge = list(FMT_HUGE_WIDTH)
     if wl:
@@ -872,8 +896,45 @@ def formats(ctx, res, binary=None, env=None, sanitizer=False):
         got = obs_class(c)
         if exp and not sanitizer and got != exp and got != 'timeout' and not got.startswith('signal'):
             res.disagreements.append(dict(name='C11/directed:' + c.construct, case=c.args[2][:80], impl=got, model=exp))
+    if not sanitizer:
+        memcheck_formats(ctx, res)
     if len(res.samples) < 7 and cases:
         res.samples.append(dict(construct='format-field-ref', format=cases[0].info['fmt'], impl=obs_class(cases[0]), model=model[0]))
+
+
+def memcheck_formats(ctx, res):
+    """the quick tier has no sanitizer build: a small sample of the malformed formats runs under
+    valgrind memcheck (about 1.5 s a run), so that reads and writes past a buffer are seen there too"""
+    vg = shutil.which('valgrind')
+    if not vg:
+        res.notes.append('valgrind not found: the malformed-format sample was not run under memcheck')
+        return
+    rng = ctx.rng
+    short = [t for t in FMT_MALFORMED if len(t) < 200 and '(account)' * 3 not in t and '1000' not in t]
+    pick = FMT_TRAILING_BACKSLASH[:3] + ['\\', '%(account)\\'] + rng.sample(short, min(len(short), ctx.scale(27, 120)))
+    cases = []
+    for i, t in enumerate(pick):
+        trailing = len(t) - len(t.rstrip('\\'))
+        con = 'format-trailing-backslash' if trailing % 2 == 1 else 'format-directive'
+        verb, opt = [('reg', '--format'), ('bal', '--format'), ('csv', '--csv-format')][i % 3]
+        cases.append(Case(con, FMT_JOURNAL, [verb, opt, t] + NOW, info=dict(t=t[:40])))
+    global TIMEOUT
+    saved = TIMEOUT
+    TIMEOUT = 60
+    try:
+        run_cases(ctx, cases, 'vg', None, lib.ledger_env({'C11_VALGRIND': vg}), confirm=False)
+    finally:
+        TIMEOUT = saved
+    for c in cases:
+        res.evaluations += 1
+        res.count('format:memcheck')
+        st, out, err = c.result
+        if st == 99 or (isinstance(st, int) and st < 0) or st == 'timeout':
+            m = re.search(rb'== (Invalid (?:read|write) of size \d+|Conditional jump or move depends on uninitialised|Use of uninitialised value|[A-Z][^\n]{0,60})', err)
+            kind = re.sub(r'[^a-z0-9]+', '-', (m.group(1).decode('latin-1') if m else str(st)).lower()).strip('-')
+            kind = re.sub(r'-of-size-\d+$', '', kind)
+            res.violations.append(dict(key='memcheck:%s:%s' % (kind, c.construct), desc='valgrind memcheck: ' + err[:400].decode('latin-1'),
+                                       case=c.replay_obj(), observed=kind, required='no memory error'))
 
 
 # ------------------------------------------------------------------------------ early options, function arguments
@@ -1438,7 +1499,8 @@ def sanitizer_tier(ctx, res, sites):
         res.disagreements.append(dict(name='C11/sanitizer-build', case=None, impl='build failed', model=None))
         return
     res.extra['sanitizer_build_s'] = round(time.time() - t0, 1)
-    env = lib.ledger_env({'ASAN_OPTIONS': 'detect_leaks=0:abort_on_error=0:allocator_may_return_null=1:detect_stack_use_after_return=0',
+    env = lib.ledger_env({'C11_STACK_KB': str(DEFAULT_STACK_KB * ASAN_STACK_FACTOR),
+                          'ASAN_OPTIONS': 'detect_leaks=0:abort_on_error=0:allocator_may_return_null=1:detect_stack_use_after_return=0',
                           'UBSAN_OPTIONS': 'print_stacktrace=1:halt_on_error=1'})
     sub = lib.Result()
     try:
@@ -1506,7 +1568,7 @@ def run(ctx, light=False):
               ('periods', lambda: periods(ctx, res)), ('truncated', lambda: truncated(ctx, res)),
               ('long_tokens', lambda: long_tokens(ctx, res)), ('formats', lambda: formats(ctx, res)), ('aliases', lambda: aliases(ctx, res)), ('early_options', lambda: early_options(ctx, res)),
               ('function_arguments', lambda: function_arguments(ctx, res)),
-              ('mutation', lambda: mutation(ctx, res, ctx.scale(6000, 16000)))]
+              ('mutation', lambda: mutation(ctx, res, ctx.scale(8000, 16000)))]
     if ctx.tier == 'thorough' and not light:
         phases.append(('sanitizer', lambda: sanitizer_tier(ctx, res, sites)))
     res.extra['phase_wall_s'] = {}
